@@ -193,7 +193,8 @@ func main() {
 			fhs = append(fhs, h)
 		}
 	}
-	if *replay == "" && (*prop == "" || *prop == "C04") {
+	if *replay == "" && (*prop == "" || *prop == "C04" || *prop == "C18") {
+		// (C18: retention - segments, Directory, URL table - stays bounded across the failed rotation)
 		// Init-file regeneration failures (a malformed in-band SPS) are outside the model as well; on
 		// single-stream fMP4 muxers the unchanged code recovers, and the playlist-history oracle of C04
 		// must keep holding across the failed rotation.
@@ -203,6 +204,7 @@ func main() {
 				r := rng.New(*seed^0x1417FA11, uint64(i*40+try))
 				h := genHistory(r, false)
 				if genInitFailure(r, &h) {
+					h.Disk = r.Fork(0xD15C).Bool(1, 2)
 					fhs = append(fhs, h)
 					break
 				}
